@@ -87,12 +87,13 @@ def _r1(ctx):
          want_a64, ["k", "r", "y", "z", "a", "g"]),
     )
     n_codes = 0
+    mod_funcs = {fn.name: fn.node for qn, fn in ctx.repo.funcs.items() if qn.startswith("db_interface.")}
     for isa, q, codes, want, unknown in tables:
         g = ctx.func(q)
         for c in codes:
             n_codes += 1
             try:
-                got = consteval.call(g.node, c)
+                got = consteval.call(g.node, c, functions=mod_funcs)
             except consteval.Unsupported as x:
                 ctx.broken("R1: %s uses a construct the constant folder does not model (%s)" % (q, x))
             exp = want(c)
@@ -104,7 +105,7 @@ def _r1(ctx):
                       "%s code %s" % (isa, c))
         for c in unknown:
             try:
-                got = consteval.call(g.node, c)
+                got = consteval.call(g.node, c, functions=mod_funcs)
             except consteval.Unsupported as x:
                 ctx.broken("R1: %s uses a construct the constant folder does not model (%s)" % (q, x))
             ctx.check(got[0] == "raise", "R1", "%s: undocumented code '%s' is rejected" % (isa, c), g.where(),
@@ -125,7 +126,8 @@ def _r1(ctx):
         mn = pm.find("M_m = M_s.split('-')[0]", h.node)
         ops = pm.find("M_o = M_s.split('-')[1].split('_')", h.node)
         dec = pm.find("M_o = [_create_db_operand(M_x, isa) for M_x in M_o]", h.node)
-        ctx.check(bool(mn) and bool(ops) and bool(dec), "R1", "%s splits MNEMONIC-OP1_OP2 and decodes every operand" % h.name, h.where(),
+        decs = C.calls_to(h.node, "_create_db_operand")
+        ctx.judge(bool(mn) and bool(ops) and bool(dec), bool(mn) or bool(ops) or not decs, "R1", "%s splits MNEMONIC-OP1_OP2 and decodes every operand" % h.name, h.where(),
                   "%s no longer splits the form name at '-' / '_' and decodes each operand code" % h.name, q, "name split")
 
 
@@ -134,7 +136,8 @@ def _r2(ctx):
     f = ctx.func("db_interface._validate_measurement")
     m, mode = f.params()[0], f.params()[1]
     rec = pm.find("M_r = [1 / M_x for M_x in range(1, 11)]", f.node)
-    ctx.check(len(rec) == 1, "R2", "throughput candidates = 1/n, n in range(1, 11)", f.where(),
+    rec_any = [n for n in ast.walk(f.node) if isinstance(n, ast.Call) and isinstance(n.func, ast.Name) and n.func.id == "range"]
+    ctx.judge(len(rec) == 1, len(rec) == 1 or bool(C.assigns_to(f.node, "reciprocals")) or not rec_any, "R2", "throughput candidates = 1/n, n in range(1, 11)", f.where(),
               "throughput candidates are not [1/x for x in range(1, 11)]: %s" % [U(a.value) for a in C.assigns_to(f.node, "reciprocals")],
               f.qname, "reciprocals")
     tp = [n for n in ast.walk(f.node) if isinstance(n, ast.If) and isinstance(C.enclosing_loop(n), ast.For)
@@ -175,7 +178,7 @@ def _r2(ctx):
     else:
         ctx.unknown("R2", "lt window", f.where(), "no `if <bounds on the measurement by floor/ceil>` found")
     last = f.node.body[-1]
-    ctx.check(isinstance(last, ast.Return) and U(last.value) == "None", "R2", "outside the tolerances the value is None (not invented)",
+    ctx.judge(isinstance(last, ast.Return) and U(last.value) == "None", bool(lt) and bool(tp) and bool(rec), "R2", "outside the tolerances the value is None (not invented)",
               f.where(last), "the fall-through result is %s" % U(last), f.qname, "fallthrough None")
     consts = sorted({c for c in (C.const_num(n) for n in ast.walk(f.node)) if isinstance(c, float)})
     ctx.check(consts == [0.95, 1.05], "R2", "the only tolerance constants are 0.95 / 1.05", f.where(),
@@ -199,7 +202,7 @@ def _r2(ctx):
             got[tgt] = (U(c.args[1]), U(c.args[0]))
         for fld, (mode_lit, idx) in pairs.items():
             ok = fld in got and got[fld][0] == mode_lit and (idx is None or "[%s]" % idx in got[fld][1])
-            ctx.check(ok, "R2", "%s: %s is validated in mode %s%s" % (h.name, fld, mode_lit, " from line %s" % idx if idx else ""),
+            ctx.judge(ok, fld in got, "R2", "%s: %s is validated in mode %s%s" % (h.name, fld, mode_lit, " from line %s" % idx if idx else ""),
                       h.where(), "%s validates %s as %s" % (h.name, fld, got.get(fld)), q, "%s mode" % fld)
 
 
@@ -207,6 +210,9 @@ def _r3(ctx):
     ctx.rule("R3", "TP and LT lines of one ibench form update the same entry")
     f = ctx.func("db_interface._get_ibench_output")
     key = pm.find("M_k = '-'.join(M_i.split('-')[:2])", f.node)
+    if not key and not any("'-'.join" in U(n) for n in ast.walk(f.node) if isinstance(n, ast.Call)):
+        ctx.unknown("R3", "merge key", f.where(), "no '-'.join(...) key construction found")
+        return
     if not key:
         ctx.bad("R3", "merge key", f.where(), "the merge key is not the first two '-'-separated parts of the line's form name "
                 "(mnemonic-operands without the -TP/-LT suffix)", f.qname, "merge key")
@@ -215,7 +221,11 @@ def _r3(ctx):
     reuse = [n for n in ast.walk(f.node) if isinstance(n, ast.If) and U(n.test) == "%s in db_entries" % k
              and any(U(s) == "entry = db_entries[%s]" % k for s in n.body)]
     store = pm.find("db_entries[%s] = entry" % k, f.node)
-    ctx.check(bool(reuse) and bool(store), "R3", "an existing entry of the same key is re-used and stored back", f.where(),
+    looked = [n for n in ast.walk(f.node) if isinstance(n, ast.If) and U(n.test) == "%s in db_entries" % k]
+    other_idiom = any(isinstance(n, ast.Call) and isinstance(n.func, ast.Attribute) and n.func.attr in ("get", "setdefault")
+                      and U(n.func.value) == "db_entries" for n in ast.walk(f.node))
+    ctx.judge(bool(reuse) and bool(store), not other_idiom, "R3",
+              "an existing entry of the same key is re-used and stored back", f.where(),
               "the second line of a form does not update the entry created by the first (lookup=%s, store=%s)" % (bool(reuse), bool(store)),
               f.qname, "merge reuse")
     if reuse:
